@@ -145,6 +145,15 @@ func (p *parseVisitor) VisitSource(c parser.ISourceContext, pushAsset func(), is
 				if ty != machine.TypeMonetary {
 					return nil, nil, nil, LogicError(c, errors.New("wrong type: expected monetary"))
 				}
+				// the allowance is stated in the asset being sent: adding a zero amount of
+				// that asset makes the machine refuse any other (OP_TAKE_ALL withdraws in the
+				// asset of the allowance, and a send of everything has no later asset check)
+				pushAsset()
+				if err := p.PushInteger(machine.NewNumber(0)); err != nil {
+					return nil, nil, nil, LogicError(c, err)
+				}
+				p.AppendInstruction(program.OP_MONETARY_NEW)
+				p.AppendInstruction(program.OP_MONETARY_ADD)
 				p.AppendInstruction(program.OP_TAKE_ALL)
 			case *parser.SrcAccountOverdraftUnboundedContext:
 				pushAsset()
